@@ -18,7 +18,7 @@
    flow f, or the Raw flow on the recorded view, or a leaf kept by the side (bytes)
    Decoder that decodes a SelfExt extension from the extension's payload. *)
 From Coq Require Import List ZArith NArith Bool Arith.
-From Verif Require Import Gen.Consts C13.Model C13.Proofs.
+From Verif Require Import Gen.Consts C13.Model C13.Proofs C13.EncModel C13.EncProofs.
 Import ListNotations.
 Open Scope bool_scope.
 
@@ -103,6 +103,55 @@ Print Assumptions C13_side_input.
 Theorem C13_pure : forall (V : Type) (enc : V -> list N) (v : V), fst (encode_model enc v) = v.
 Proof. exact pure_lemma. Qed.
 Print Assumptions C13_pure.
+
+(* Encode runs user code: which memory does a receiver-writing encode callback get?
+   (C13/EncModel.v mirrors the tail of encodeValue, addrRV, kStruct's MissingFielder branch
+   and how interfaces, pointers, slices, arrays, structs and maps hand out their elements.)
+   With EncodeOptions.NoAddressableReadonly, for EVERY position chain under the argument of
+   Encode that is not addressable by the rules of the language (held in an interface, map
+   entry, field / element of those, the argument itself), every receiver kind and Canonical
+   on or off: the callback runs on a copy, the caller's value is not written. *)
+Theorem C13_pure_recv : forall o ptr_recv chain,
+  noaddr_ro o = true -> go_addressable chain = false ->
+  callback_recv o ptr_recv (position o chain) = RCopy.
+Proof. exact pure_recv_lemma. Qed.
+Print Assumptions C13_pure_recv.
+
+Theorem C13_pure_recv_unwritten : forall o ptr_recv chain,
+  noaddr_ro o = true -> go_addressable chain = false -> caller_written o ptr_recv chain = false.
+Proof. exact pure_recv_unwritten_lemma. Qed.
+Print Assumptions C13_pure_recv_unwritten.
+
+(* a value-receiver callback never reaches the caller's value, whatever the options *)
+Theorem C13_pure_recv_value : forall o chain, caller_written o false chain = false.
+Proof. exact recv_value_lemma. Qed.
+Print Assumptions C13_pure_recv_value.
+
+(* sharpness: the option is what makes the difference (without it every pointer-receiver
+   callback is handed the caller's own storage, in every position), and a pointer / slice the
+   caller hands out is always passed through as it is *)
+Theorem C13_pure_recv_default_reaches_caller : forall chain,
+  caller_written (mkeopts false false) true chain = true.
+Proof. exact recv_default_lemma. Qed.
+Print Assumptions C13_pure_recv_default_reaches_caller.
+
+Theorem C13_pure_recv_user_pointer : forall o chain s,
+  s = SPtr \/ s = SSlice -> caller_written o true (chain ++ [s]) = true.
+Proof. exact recv_user_pointer_lemma. Qed.
+Print Assumptions C13_pure_recv_user_pointer.
+
+Example C13_pure_recv_nonvacuous :
+  (* a struct held in a []interface{} element, in an interface-typed field of it, a map value,
+     an element of an array held by value: copies with the option, the caller's storage without *)
+  caller_written (mkeopts true false) true [SSlice; SIface] = false
+  /\ caller_written (mkeopts false false) true [SSlice; SIface] = true
+  /\ caller_written (mkeopts true true) true [SSlice; SIface; SField; SIface] = false
+  /\ caller_written (mkeopts true false) true [SMapVal] = false
+  /\ caller_written (mkeopts true false) true [SMapVal; SIface; SArray] = false
+  /\ caller_written (mkeopts false true) true [SMapKey; SField] = false
+  /\ caller_written (mkeopts true false) true [SMapVal; SPtr; SField] = true
+  /\ go_addressable [SMapVal; SIface; SArray] = false /\ go_addressable [SMapVal; SPtr; SField] = true.
+Proof. vm_compute. repeat apply conj; reflexivity. Qed.
 
 (* non-vacuity: kept leaves exist in every region the theorems allow, and the
    dangerous views are really produced by the drivers (so the copies matter) *)
